@@ -15,7 +15,8 @@ LEVEL = "exploration"
 TECHNIQUE = "model-based generation of mask/unmask/reveal/save/load/CLI histories against a {plate: observed} model with a frozen row table; constructor and set_observed examples per case"
 RULE = (
     "screens of arity 1..3 with 1..8 plates whose stored values include 0, NaN and all-zero plates; histories of 3..10 operations from "
-    "{mask, unmask, reveal(ids: unobserved / already observed / repeated / unknown), save+load, reveal_plate CLI, extract_screen_metadata CLI}; "
+    "{mask, unmask, reveal(ids: unobserved / already observed / repeated / unknown), save+load, reveal_plate CLI, extract_screen_metadata CLI}, sometimes continued "
+    "from an EARLIER screen object (branching), with every earlier object re-checked against its own model after each step; "
     "per case also the constructor rules (mixed plate rejected, observations without mask, neither, mask without observations) and set_observed on a drawn "
     "selection. Non-trivial = history with >=2 reveals of which one touches an already observed or unknown id. distinct = distinct case JSON."
 )
@@ -106,12 +107,21 @@ def check_case(case):
     name_to_id = {str(k): int(v) for k, v in zip(*cur.plate_mapping)}
     id_to_name = {v: k for k, v in name_to_id.items()}
     _check_state(cur, sc, frozen, model, "initial")
+    versions = [(cur, dict(model))]
     reveals = 0
+    branched = False
     touched_old = False
     paths = []
     try:
         for step, op in enumerate(case["ops"]):
             kind = op["op"]
+            if versions[-1][0] is not cur or versions[-1][1] != model:
+                versions.append((cur, dict(model)))
+            if len(versions) >= 2 and op["ids"] and (op["ids"][0] + step) % 4 == 0:
+                # branch: continue from an earlier screen object instead of the latest one
+                cur, model = versions[(op["ids"][0] + step) % len(versions)]
+                model = dict(model)
+                branched = True
             if kind == "mask":
                 cur = mask_screen(cur)
                 model = {p: False for p in model}
@@ -164,6 +174,9 @@ def check_case(case):
                 after_unobs = sum(1 for v in model.values() if not v)
                 require(before_unobs - after_unobs == len(newly), "reveal.count", "model bookkeeping")
             _check_state(cur, sc, frozen, model, kind)
+            for v_i, (old, old_model) in enumerate(versions[-4:]):
+                if old is not cur:
+                    _check_state(old, sc, frozen, old_model, kind + ".earlier_screen_untouched")
     finally:
         tmp.cleanup(*paths)
 
@@ -203,7 +216,7 @@ def check_case(case):
     require(bool(np.all(am[sel])), "set_observed.marks_selected", "selected rows not marked observed")
     require(S.same_bits(ao[~sel], before_o[~sel]) and np.array_equal(am[~sel], before_m[~sel]), "set_observed.others_untouched", "rows outside the selection changed")
 
-    labels = ["reveals=%d" % min(reveals, 3)]
+    labels = ["reveals=%d" % min(reveals, 3)] + (["branched-history"] if branched else [])
     if touched_old:
         labels.append("touches-observed-or-unknown-or-repeated")
     return {"nontrivial": reveals >= 2 and touched_old, "labels": labels, "counts": {"ops": len(case["ops"])}}
